@@ -2,15 +2,16 @@
 """save_seed.py <ID> <name> <detected_by text> : copy a confirmed seeded change into /verif/seeded/<name>/"""
 import json, os, shutil, sys, glob, re
 pid, name, detected = sys.argv[1], sys.argv[2], sys.argv[3]
+dstname = sys.argv[4] if len(sys.argv) > 4 else name
 src = f"/tmp/seed/{name}/seed_out"
-dst = f"/verif/seeded/{name}"
+dst = f"/verif/seeded/{dstname}"
 os.makedirs(dst, exist_ok=True)
 for f in glob.glob(src + "/*"):
     if os.path.isfile(f):
         shutil.copy2(f, dst)
 meta = json.load(open(src + "/meta.json"))
 conf = ""
-for log in glob.glob("/tmp/seed/confirm*.log"):
+for log in sorted(glob.glob("/tmp/seed/confirm*.log"), key=lambda x: int(re.findall(r"(\d+)", x)[-1])):
     t = open(log).read()
     m = re.search(r"== %s\n(.*?)(?=\n== |\Z)" % re.escape(name), t, re.S)
     if m:
